@@ -302,3 +302,91 @@ theorem ident_refused_iff (s : N) (h : NsInv s) (e : El) (v : String) :
     simp [hok, hleg]
 
 end Spydr.Names
+
+namespace Spydr.Names
+
+/-- what the manager's conflict test says, in terms of the current children (a candidate that is not yet a
+    child of `p`): some current child of the same class carries the candidate's name, or — under the EDIF
+    class — its identifier up to letter case -/
+theorem conflicts_iff (s : N) (h : NsInv s) (p c : El) (hc : s.parent c = none) :
+    s.conflicts p c = true ↔ s.hasTbl p = true ∧
+      ((∃ v e', (s.info c).name = some v ∧ s.parent e' = some p ∧ e'.kind = c.kind ∧ (s.info e').name = some v) ∨
+       (s.tpol p = .edif ∧ ∃ v e', (s.info c).ident = some v ∧ s.parent e' = some p ∧ e'.kind = c.kind ∧
+          ((s.info e').ident).map lower = some (lower v))) := by
+  simp only [N.conflicts, Bool.and_eq_true, Bool.or_eq_true]
+  constructor
+  · rintro ⟨ht, hor⟩
+    refine ⟨ht, ?_⟩
+    rcases hor with hi | hn
+    · right
+      cases hv : (s.info c).ident with
+      | none => simp [hv] at hi
+      | some v =>
+        simp only [hv, N.noConflict, Key.noConfusion, if_false, Bool.not_eq_true'] at hi
+        have hki : (Key.ident = Key.name) = False := by simp
+        simp only [hki, if_false] at hi
+        cases hpol : s.tpol p with
+        | default => simp [hpol] at hi
+        | edif =>
+          simp only [hpol, if_true] at hi
+          cases hl : s.idents p c.kind (lower v) with
+          | none => simp [hl] at hi
+          | some e0 =>
+            have h0 := (h.idents_iff p ht hpol c.kind (lower v) e0).1 hl
+            exact ⟨rfl, v, e0, rfl, h0.1, h0.2.1, h0.2.2⟩
+    · left
+      cases hv : (s.info c).name with
+      | none => simp [hv] at hn
+      | some v =>
+        simp only [hv, N.noConflict, if_true, Bool.not_eq_true'] at hn
+        cases hl : s.names p c.kind v with
+        | none => simp [hl] at hn
+        | some e0 =>
+          have h0 := (h.names_iff p ht c.kind v e0).1 hl
+          exact ⟨v, e0, rfl, h0.1, h0.2.1, h0.2.2⟩
+  · rintro ⟨ht, hor⟩
+    refine ⟨ht, ?_⟩
+    rcases hor with ⟨v, e', hv, hp', hk, hx⟩ | ⟨hpol, v, e', hv, hp', hk, hx⟩
+    · right
+      have hl := (h.names_iff p ht c.kind v e').2 ⟨hp', hk, hx⟩
+      have hne : e' ≠ c := fun e => by rw [e, hc] at hp'; cases hp'
+      simp [hv, N.noConflict, hl, hne]
+    · left
+      have hl := (h.idents_iff p ht hpol c.kind (lower v) e').2 ⟨hp', hk, hx⟩
+      have hne : e' ≠ c := fun e => by rw [e, hc] at hp'; cases hp'
+      simp [hv, N.noConflict, hpol, hl, hne]
+
+/-- **an add is refused by the naming rules exactly when** a current child of that parent and class already
+    carries the name (identifier, up to case, under EDIF), or the child's subtree does not comply with the
+    policy it would have to adopt (`N.compliant`: an illegal identifier or two children colliding under that
+    policy somewhere in the subtree). -/
+theorem attach_refused_iff (s : N) (h : NsInv s) (p c : El) :
+    (step s (.attach p c)).2 = .value ↔ validParent p.kind c.kind = true ∧ s.parent c = none ∧
+      (s.conflicts p c = true ∨
+        (s.conflicts p c = false ∧ ∃ pp, (s.info p).ns = some pp ∧ (s.info c).ns ≠ some pp ∧ s.compliant pp c = false)) := by
+  simp only [step, stepCore]
+  by_cases hv : validParent p.kind c.kind = true
+  · by_cases hpc : s.parent c = none
+    · simp only [hv, Bool.not_true, Bool.false_eq_true, if_false, hpc, ne_eq, not_true_eq_false, true_and]
+      cases hcf : s.conflicts p c with
+      | true => simp
+      | false =>
+        simp only [Bool.false_eq_true, if_false, false_or, true_and]
+        cases hns : (s.info p).ns with
+        | none =>
+          simp only []
+          split <;> simp
+        | some pp =>
+          simp only [N.setNsCore]
+          by_cases he : (s.info c).ns = some pp
+          · simp [he]
+          · by_cases hcm : s.compliant pp c = true
+            · simp [he, hcm]
+            · have hcm' : s.compliant pp c = false := by simpa using hcm
+              simp [he, hcm']
+    · have : s.parent c ≠ none := hpc
+      simp [hv, this, hpc]
+  · have : validParent p.kind c.kind = false := by simpa using hv
+    simp [this]
+
+end Spydr.Names
